@@ -17,13 +17,16 @@ def cli():
 
 def _ast_to_dict(doc):
     """Convert AST Document to dictionary for JSON/YAML export."""
-    from octave_mcp.core.ast_nodes import Assignment, Block, InlineMap, ListValue
+    from octave_mcp.core.ast_nodes import Assignment, Block, HolographicValue, InlineMap, ListValue
 
     def convert_value(value):
         if isinstance(value, ListValue):
             return [convert_value(item) for item in value.items]
         elif isinstance(value, InlineMap):
             return {k: convert_value(v) for k, v in value.pairs.items()}
+        elif isinstance(value, HolographicValue):
+            # no native JSON/YAML form: export the pattern's canonical text
+            return value.raw_pattern
         return value
 
     def convert_block(block):
